@@ -111,6 +111,9 @@ def poly_str(p):
 
 
 # ------------------------------------------------------------- helpers
+_CUR_MOD = [None]
+
+
 def _ops_of_test(test, identvar):
     """Operator names selected by a branch test (ident in [...], ident ==
     'x', is_operator_app(node, 'x'), is_indexed_operator_app(node, 'x'[,k])
@@ -129,6 +132,15 @@ def _ops_of_test(test, identvar):
                     t.comparators[0], (ast.List, ast.Tuple, ast.Set)):
                 ops += [c.value for c in t.comparators[0].elts]
                 kind = 'plain'
+            elif isinstance(t.ops[0], ast.In) and isinstance(
+                    t.comparators[0], ast.Name) and _CUR_MOD[0] is not None:
+                try:
+                    from ..astutil import module_const
+                    ops += list(module_const(_CUR_MOD[0],
+                                             t.comparators[0]))
+                    kind = 'plain'
+                except (ValueError, TypeError):
+                    return None, None
             elif isinstance(t.ops[0], ast.Eq) and is_const(t.comparators[0]):
                 ops.append(t.comparators[0].value)
                 kind = 'plain'
@@ -313,6 +325,7 @@ def rule_r1_r2(chk, prog):
 
 # --------------------------------------------------------------------- R1w
 def table_function(m, marker, default):
+    _CUR_MOD[0] = m
     """The function of smtlib holding the operator table that mentions the
     string constant ``marker`` in an ``ident in [...]`` list (so that a
     cached wrapper / renamed helper does not hide the table)."""
@@ -326,6 +339,15 @@ def table_function(m, marker, default):
                 if any(is_const(e, marker)
                        for e in st.test.comparators[0].elts):
                     hits.append(q)
+            elif isinstance(st, ast.If) and isinstance(
+                    st.test, ast.Compare) and isinstance(
+                        st.test.comparators[0], ast.Name):
+                try:
+                    from ..astutil import module_const
+                    if marker in module_const(m, st.test.comparators[0]):
+                        hits.append(q)
+                except (ValueError, TypeError):
+                    pass
     hits = list(dict.fromkeys(hits))
     if len(hits) != 1:
         raise AnalysisError(
@@ -657,7 +679,7 @@ def rule_r4(chk, prog):
     fm = prog.mod('mutators_fp')
     fs = fm.func('FPShortSort.mutations')
     tab = {}
-    for st in ast.walk(fs):
+    for st in ast.walk(fm.tree):
         if isinstance(st, ast.If) and isinstance(st.test, ast.BoolOp):
             consts = [c.value for c in ast.walk(st.test)
                       if isinstance(c, ast.Constant)
@@ -766,7 +788,47 @@ def rule_r5(chk, prog):
     # datatypes: constructor -> its own datatype
     cons = [s for s in ast.walk(f) if isinstance(s, ast.Assign) and unparse(
         s.targets[0]).startswith('__datatypes_constructors[')]
-    chk.floor('C16.R5', 'constructor table stores', len(cons), 2)
+    if not cons:
+        # registration delegated to a helper: every call site must pass a
+        # datatype together with its own constructor list
+        helpers = {}
+        for q, hf in m.funcs.items():
+            hs = [s_ for s_ in ast.walk(hf) if isinstance(s_, ast.Assign)
+                  and unparse(s_.targets[0]).startswith(
+                      '__datatypes_constructors[')]
+            if hs:
+                helpers[q] = (hf, hs)
+        ncs = 0
+        for q, (hf, hs) in helpers.items():
+            hp = params_of(hf)
+            for s_ in hs:
+                lp = getattr(s_, '_parent', None)
+                while lp is not None and not isinstance(lp, ast.For):
+                    lp = getattr(lp, '_parent', None)
+                okh = unparse(s_.value) in hp and lp is not None and unparse(
+                    lp.iter) in hp and unparse(s_.targets[0]) == \
+                    f'__datatypes_constructors[{unparse(lp.target)}[0]]'
+                chk.check('C16.R5', f'smtlib.{q}', s_, okh,
+                          'helper does not register each constructor of its '
+                          'list parameter under its sort parameter',
+                          loc=m.loc(s_), nontrivial=True)
+                if not okh:
+                    continue
+                si, li = hp.index(unparse(s_.value)), hp.index(
+                    unparse(lp.iter))
+                for c in calls_in(f):
+                    if isinstance(c.func, ast.Name) and c.func.id == q:
+                        ncs += 1
+                        a, b = unparse(c.args[si]), unparse(c.args[li])
+                        okc = (a, b) == ('cmd[1]', 'cmd[2]') or (
+                            a.startswith('sorts[') and b == 'cmd[2]' + a[5:])
+                        chk.check('C16.R5', where, c, okc,
+                                  f'constructors of "{b}" are registered '
+                                  f'under datatype "{a}"', loc=m.loc(c),
+                                  nontrivial=True)
+        chk.floor('C16.R5', 'constructor registration call sites', ncs, 2)
+    else:
+        chk.floor('C16.R5', 'constructor table stores', len(cons), 2)
     for s in cons:
         facts = facts_at(f, s.value)
         single = any(pol and t == "name == 'declare-datatype'"
@@ -789,8 +851,9 @@ def rule_r5(chk, prog):
                   nontrivial=True)
     # loop-variable clobbering in the inference/table code
     nloops = 0
-    for fname in ('collect_information', '_get_sort_aux', 'get_bv_width',
-                  'get_default_constants', 'get_variables_with_sort'):
+    for fname in sorted(m.funcs):
+        if '<locals>' in fname:
+            continue
         g = m.func(fname)
         for lp in ast.walk(g):
             if not isinstance(lp, ast.For):
@@ -882,9 +945,17 @@ def rule_r6(chk, prog):
                                   'untouched', loc=m.loc(s), nontrivial=True)
     # caches are keyed consistently: get_sort stores what it looks up
     gs = m.func('get_sort')
-    txt = unparse(gs)
-    ok = '__get_sort_cache[node.id] = sort' in txt and \
-        'sort = _get_sort_aux(node)' in txt
+    rets = [r.value for r in walk_no_nested(gs) if isinstance(r, ast.Return)]
+    stores = [st for st in walk_no_nested(gs) if isinstance(st, ast.Assign)
+              and isinstance(st.targets[0], ast.Subscript)
+              and unparse(st.targets[0].value) == '__get_sort_cache']
+    comp = [st for st in walk_no_nested(gs) if isinstance(st, ast.Assign)
+            and isinstance(st.value, ast.Call)
+            and call_name(st.value) == '_get_sort_aux'
+            and unparse(st.value.args[0]) == params_of(gs)[0]]
+    ok = len(comp) == 1 and len(stores) >= 1 and all(
+        unparse(st.value) == unparse(comp[0].targets[0]) for st in stores) \
+        and any(unparse(r) == unparse(comp[0].targets[0]) for r in rets)
     chk.check('C16.R6', 'smtlib.get_sort', 'cache stores the computed sort',
               ok, 'get_sort caches something other than its result',
               loc=m.loc(gs), nontrivial=True)
